@@ -193,6 +193,13 @@ func (o *c03Origin) take(i int) net.Conn {
 	return o.parked[i]
 }
 func (o *c03Origin) port() int { return o.ln.Addr().(*net.TCPAddr).Port }
+func (o *c03Origin) closeAll() {
+	o.mu.Lock()
+	defer o.mu.Unlock()
+	for _, c := range o.parked {
+		_ = c.Close()
+	}
+}
 
 // ----- the server ----------------------------------------------------------------------------------
 
@@ -484,6 +491,14 @@ func (sc *c03Scen) pullSpawned(nid, stream string, originBefore int) {
 	}
 	sc.attempt[nid] = &c03OriginSess{conn: sc.s.origin.take(originBefore)}
 	sc.attStr[nid] = stream
+	// the key of the attempt (start_relay_pull returns it; one started by a subscriber is only known to the group)
+	if _, ok := sc.key[nid]; !ok {
+		if g := sc.s.sm.GetGroup("", stream); g != nil {
+			if uk := g.VerifRelayState().PullingSessionUk; uk != "" {
+				sc.key[nid] = uk
+			}
+		}
+	}
 }
 
 func (sc *c03Scen) pulling(stream string) bool {
@@ -780,9 +795,7 @@ func (sc *c03Scen) step(f []string) string {
 		name := sc.attStr[f[1]]
 		key := sc.key[f[1]]
 		p0 := nh.count("relay_pull_stop", name)
-		if a.sess != nil {
-			_ = a.sess.Dispose()
-		}
+		// (only the raw connection: see c03L1.drop)
 		_ = a.conn.Close()
 		c03WaitFor(2*time.Second, func() bool { return nh.count("relay_pull_stop", name) > p0 })
 		if key == "" {
@@ -929,9 +942,6 @@ func c03RunSrv(evS string) string {
 		s.sm.CtrlKickSession(base.ApiCtrlKickSessionReq{StreamName: name, SessionId: sc.key[h]})
 	}
 	for _, a := range sc.attempt {
-		if a.sess != nil {
-			_ = a.sess.Dispose()
-		}
 		_ = a.conn.Close()
 	}
 	return out
@@ -972,6 +982,12 @@ func c03SrvCorpus() []struct{ label, evs string } {
 	add("kick-rtmp", "rO:1;rP:1:5:1;rO:2;rY:2:5:1:9;K:5:2;rC:2;S:5;K:6:1;K:5:1;rC:1;S:5")
 	add("two-streams", "rO:1;rP:1:5:1;rO:2;rP:2:6:1;rO:3;rP:3:6:1;S:5;S:6;rC:2;rO:4;rP:4:6:1;S:6;rC:1;rC:4;S:5;S:6")
 	add("start-pull-with-input", "rO:1;rP:1:5:1;lS:5:0:0:9;lT:5;S:5;rC:1;S:5")
+	// stop_relay_pull / kick_session while the attempt is still connecting: the call succeeds, and when the
+	// origin answers the attempt is refused (its one relay_pull_stop, no start, nothing attached)
+	add("pull-stop-connecting", "lS:5:0:0:9;lT:5;lT:5;S:5;lA:9;S:5;lS:5:0:0:10;lA:10;S:5;lM:10;lT:5;lD:10;S:5")
+	add("pull-stop-connecting", "lS:5:0:0:9;lT:5;lD:9;lS:5:0:0:10;lT:5;lM:10;lA:10;S:5;rO:1;rP:1:5:1;S:5;rC:1")
+	add("pull-kick-connecting", "lS:5:0:0:9;K:6:9;K:5:9;K:5:9;lM:9;lA:9;S:5;rO:1;rY:1:5:1:10;S:5;rC:1")
+	add("pull-kick-connecting", "rO:1;rY:1:5:1:8;lS:5:0:1:9;lD:9;rO:2;rY:2:5:1:10;K:5:10;S:5;lA:10;S:5;rC:1;rC:2;S:5")
 	return out
 }
 
@@ -1143,7 +1159,13 @@ func c03SrvScenario(r *Rng) (string, string) {
 				w.add(fmt.Sprintf("lT:%d", st))
 				for _, a := range w.pulls {
 					if a.st == st && !a.done {
-						w.add(fmt.Sprintf("lD:%d", a.h))
+						if !a.attached && r.Intn(3) == 0 {
+							// stopped while connecting: the origin answers all the same, the attempt is refused
+							w.add(fmt.Sprintf("lA:%d", a.h))
+							w.lab["stop-connecting"] = true
+						} else {
+							w.add(fmt.Sprintf("lD:%d", a.h))
+						}
 						a.done = true
 					}
 				}
@@ -1171,7 +1193,13 @@ func c03SrvScenario(r *Rng) (string, string) {
 			if len(w.pulls) > 0 {
 				a := w.pulls[r.Intn(len(w.pulls))]
 				if !a.done {
-					switch r.Intn(4) {
+					switch r.Intn(5) {
+					case 4:
+						// kick of an attempt that is (perhaps) still connecting; it stays parked at the origin
+						if !a.attached {
+							w.add(fmt.Sprintf("K:%d:%d", a.st, a.h))
+							w.lab["stop-connecting"] = true
+						}
 					case 0, 1:
 						if !a.attached {
 							w.add(fmt.Sprintf("lA:%d", a.h))
@@ -1227,7 +1255,7 @@ func c03SrvScenario(r *Rng) (string, string) {
 	w.add("S:5")
 	w.add("S:6")
 	var ls []string
-	for _, k := range []string{"second-cmd", "rtsp", "customize", "rtp-pub", "relay-pull", "kick"} {
+	for _, k := range []string{"second-cmd", "rtsp", "customize", "rtp-pub", "relay-pull", "stop-connecting", "kick"} {
 		if w.lab[k] {
 			ls = append(ls, k)
 		}
